@@ -141,10 +141,9 @@ def explore(tier, seed):
             seen.add(k)
             fails.append(f)
 
-    ni = 3 if tier == "quick" else 4
-    nf = 2 if tier == "quick" else 3
+    ni, nf = 4, 3
     for moves in all_move_sets(INT_REGS[:ni], ni):
-        for free in ([], [INT_REGS[3]] if ni < 4 else ["t4"], None):
+        for free in ([], ["t4"], None):
             cases += 1
             rec(check_moves(moves, free, 32))
     for moves in all_move_sets(FLT_REGS[:nf], nf):
